@@ -248,11 +248,20 @@ def canon_hapfeed(ans):
     return (joined or "-", int(buflen), int(ctr), st)
 
 
+class RawType:
+    """a Companion frame type byte that need not be a member of pyatv's FrameType enum"""
+
+    def __init__(self, value):
+        self.value = value
+        self.name = "raw%d" % value
+
+
 def corr_companion(ctx, rng):
     from pyatv.protocols.companion.connection import CompanionConnection, FrameType
     from harness.core.prng import split_at
 
     valid = {t.value for t in FrameType}
+    unknown = [v for v in range(256) if v not in valid]
     cases, lines = [], []
     # send side
     for enc in (False, True):
@@ -278,7 +287,11 @@ def corr_companion(ctx, rng):
     for enc in (False, True):
         for _ in range(ctx.scale(12, 80)):
             c0 = rng.choice([0, 255, 2 ** 64, 2 ** 96 - 2])
-            frames = [(rng.choice(list(FrameType)), pattern(rng, rng.choice([0, 0, 1, 5, 300, 1200]))) for _ in range(rng.randrange(1, 5))]
+            # a quarter of the frames carry a type byte outside pyatv's FrameType enum (devices
+            # newer than pyatv send such frames): they are opened like any other frame, so the
+            # receive counter moves, and only then skipped
+            frames = [(RawType(rng.choice(unknown)) if rng.chance(0.25) else rng.choice(list(FrameType)),
+                       pattern(rng, rng.choice([0, 0, 1, 5, 300, 1200]))) for _ in range(rng.randrange(1, 6))]
             dev = CompanionConnection(None, "h", 0)
             dev.transport = tr = FakeTransport()
             if enc:
@@ -797,9 +810,16 @@ def oracle_companion(ctx, rng):
     # receive with corruption: delivered non-empty payloads must be a subsequence of what was sent
     inpeer = ChaCha20Poly1305(KEY_IN)
     payloads = [pattern(rng, n) for n in (5, 300, 1, 1200)]
+    known = {t.value for t in FrameType}
+    odd = rng.choice([v for v in range(256) if v not in known])
+    # the peer also sends frames of a type pyatv does not know (before, between and after the
+    # others): they are skipped, and everything else must still be recovered exactly
+    plan = [(FrameType.E_OPACK.value, payloads[0]), (odd, pattern(rng, 40)), (FrameType.E_OPACK.value, payloads[1]),
+            (0x2A if 0x2A not in known else odd, pattern(rng, 1)), (FrameType.E_OPACK.value, payloads[2]),
+            (FrameType.E_OPACK.value, payloads[3]), (odd, pattern(rng, 700))]
     wire = b""
-    for i, p in enumerate(payloads):
-        header = bytes([FrameType.E_OPACK.value]) + (len(p) + 16).to_bytes(3, "big")
+    for i, (t, p) in enumerate(plan):
+        header = bytes([t]) + (len(p) + 16).to_bytes(3, "big")
         wire += header + inpeer.encrypt(i.to_bytes(12, "little"), p, header)
     positions = [None] + (list(range(len(wire))) if ctx.thorough else sorted(set(list(range(0, 30)) + rng.sample(range(len(wire)), 250))))
     for pos in positions:
@@ -976,6 +996,175 @@ def oracle_audio(ctx, rng):
         loop.close()
 
 
+def oracle_audio_retransmit(ctx, rng):
+    """AirPlay 2 audio through the real StreamClient._send_packet (backlog) and the real
+    ControlClient retransmit path: a packet that the receiver reports as lost is re-sent
+    from the backlog, and the receiver holding the stream key must recover exactly the
+    audio of that packet from the re-sent copy too (never cleartext, never another packet)."""
+    import plistlib
+
+    from cryptography.hazmat.primitives.ciphers.aead import ChaCha20Poly1305
+    from pyatv.protocols.raop.packets import RetransmitReqeust
+    from pyatv.protocols.raop.protocols import StreamContext
+    from pyatv.protocols.raop.protocols.airplayv2 import AirPlayV2
+    from pyatv.protocols.raop.stream_client import ControlClient, StreamClient
+    from pyatv.support.http import HttpResponse
+    from harness.core import vloop
+
+    class Verifier:
+        def encryption_keys(self, salt, out_info, in_info):
+            return KEY_OUT, KEY_IN
+
+    class Rtsp:
+        session_id = 0x11223344
+
+        async def setup(self, headers=None, body=None):
+            return HttpResponse("RTSP", "1.0", 200, "OK", {},
+                                plistlib.dumps({"streams": [{"controlPort": 6001, "dataPort": 6000}]}, fmt=plistlib.FMT_BINARY))
+
+    class Udp(FakeTransport):
+        def is_closing(self):
+            return False
+
+    class Source:
+        def __init__(self, size):
+            self.size, self.frames = size, []
+
+        async def readframes(self, _n):
+            self.frames.append(pattern(rng, self.size))
+            return self.frames[-1]
+
+    def open_packet(pkt):
+        return ChaCha20Poly1305(KEY_OUT).decrypt(b"\x00" * 4 + pkt[-8:], pkt[12:-8], pkt[4:12])
+
+    async def scenario(first_seq, count, requests):
+        context = StreamContext()
+        context.reset()
+        context.rtpseq = first_seq
+        rtsp = Rtsp()
+        proto = AirPlayV2(context, rtsp)
+        proto._verifier = Verifier()
+        await proto.setup_audio_stream(control_client_port=1234)
+        client = StreamClient(rtsp, context, proto, None)
+        client.control_client = ControlClient(context, client._packet_backlog)
+        ctrl = Udp()
+        client.control_client.connection_made(ctrl)
+        audio = Udp()
+        src = Source(context.packet_size)
+        for i in range(count):
+            await client._send_packet(src, i == 0, audio)
+        out = []
+        for lost, n in requests:
+            del ctrl.writes[:]
+            client.control_client.datagram_received(RetransmitReqeust.encode(0x80, 0x55 | 0x80, 1, lost, n), ("127.0.0.1", 6001))
+            out.append(list(ctrl.writes))
+        return audio.writes, src.frames, out
+
+    for _ in range(ctx.scale(6, 60)):
+        first = rng.choice([0, 1, 65533, 65535, rng.randrange(65536)])
+        count = rng.choice([1, 3, 6, 20])
+        reqs = [((first + rng.randrange(count)) % 65536, rng.randrange(1, 4)) for _ in range(3)]
+        try:
+            sent, frames, resent = vloop.run(scenario, first, count, reqs)
+        except Exception as e:  # noqa: BLE001
+            ctx.fail("audio-retransmit:raises", {"first": first, "count": count}, type(e).__name__ + ": " + str(e)[:80], "packets sent and re-sent", "audio send/retransmit path raised")
+            continue
+        ctx.case(["audio-retransmit", first, count, reqs], True)
+        if len(sent) != count:
+            ctx.fail("audio-retransmit:sent-count", {"first": first, "count": count}, len(sent), count, "number of audio packets on the wire")
+            continue
+        for (lost, n), answers in zip(reqs, resent):
+            want = [(lost + k) % 65536 for k in range(n) if ((lost + k - first) % 65536) < count]
+            if len(answers) != len(want):
+                ctx.fail("audio-retransmit:count", {"first": first, "count": count, "lost": lost, "n": n}, len(answers), len(want), "packets re-sent for a retransmit request")
+                continue
+            for seq, resp in zip(want, answers):
+                idx = (seq - first) % 65536
+                inner = resp[4:]
+                case = {"first": first, "count": count, "lost": lost, "n": n, "seq": seq}
+                try:
+                    pt = open_packet(inner)
+                except Exception as e:  # noqa: BLE001
+                    ctx.fail("audio-retransmit:peer-cannot-decrypt", case, type(e).__name__ + (" (audio in clear)" if frames[idx] in inner else ""),
+                             "the re-sent packet opens under the stream key to the packet's audio",
+                             "a packet re-sent from the backlog cannot be opened by the receiver")
+                    break
+                if pt != frames[idx] or resp[:2] != b"\x80\xd6" or resp[2:4] != seq.to_bytes(2, "big") or inner != sent[idx]:
+                    ctx.fail("audio-retransmit:plaintext-mismatch", case, "differs", "the packet exactly as first sent", "re-sent audio packet differs from the one sent")
+                    break
+
+
+def oracle_http_hap_concurrent(ctx, rng):
+    """Several requests in flight on one HAP-framed HttpConnection (the AirPlay control
+    channel with its periodic /feedback next to user commands), including bodies far above
+    64 KiB: everything written to the transport, read by an independent peer, must be
+    exactly the requests, each whole, in the order they were sealed - also when one of the
+    callers is cancelled or times out half way."""
+    from pyatv.auth.hap_session import HAPSession
+    from pyatv.support.http import HttpConnection
+    from harness.core import vloop
+
+    async def scenario(sizes, cancel_idx, cancel_after):
+        conn = HttpConnection()
+        conn.transport = tr = FakeTransport()
+        sess = HAPSession()
+        sess.enable(KEY_OUT, KEY_IN)
+        sealed = []
+
+        def send_processor(data):
+            sealed.append(bytes(data))
+            return sess.encrypt(data)
+
+        conn.receive_processor = sess.decrypt
+        conn.send_processor = send_processor
+        tasks = []
+        for i, n in enumerate(sizes):
+            tasks.append(asyncio.ensure_future(conn.send_and_receive(
+                "POST", "/r%d" % i, body=pattern(rng, n), headers={"Content-Type": "application/octet-stream"}, timeout=5)))
+            if rng.chance(0.5):
+                await asyncio.sleep(0)
+        for k in range(6):
+            if cancel_idx is not None and k == cancel_after:
+                tasks[cancel_idx].cancel()
+            await asyncio.sleep(0)
+        # a later request, after whatever happened to the earlier ones
+        tasks.append(asyncio.ensure_future(conn.send_and_receive("GET", "/late", timeout=5)))
+        for _ in range(6):
+            await asyncio.sleep(0)
+        wire = b"".join(tr.writes)
+        for t in tasks:
+            t.cancel()
+        await asyncio.gather(*tasks, return_exceptions=True)
+        return wire, sealed
+
+    plans = [([200000, 10], None, 0), ([70000, 0, 66000], None, 0), ([10, 20], None, 0), ([150000, 5], 0, 0), ([150000, 5], 0, 1)]
+    for _ in range(ctx.scale(4, 40)):
+        sizes = [rng.choice([0, 100, 1024, 63000, 65536, 66000, 140000]) for _ in range(rng.randrange(1, 4))]
+        ci = rng.choice([None, None, rng.randrange(len(sizes))])
+        plans.append((sizes, ci, rng.randrange(0, 4)))
+    for sizes, ci, ca in plans:
+        try:
+            wire, sealed = vloop.run(scenario, sizes, ci, ca)
+        except Exception as e:  # noqa: BLE001
+            ctx.fail("http-hap-concurrent:raises", {"sizes": sizes, "cancel": ci, "after": ca}, type(e).__name__ + ": " + str(e)[:80], "requests written", "concurrent requests raised")
+            continue
+        ctx.case(["http-hap-concurrent", sizes, ci, ca], len(sizes) > 1 and max(sizes) > 65536)
+        try:
+            frames = peer_hap_decrypt(KEY_OUT, wire)
+            got, why = b"".join(frames), ""
+            if any(len(f) > 1024 for f in frames):
+                got, why = None, "frame above 1024 bytes"
+        except Exception as e:  # noqa: BLE001
+            got, why = None, type(e).__name__
+        if got is None or got != b"".join(sealed):
+            ctx.fail("http-hap-concurrent:stream-broken", {"sizes": sizes, "cancel": ci, "after": ca},
+                     "peer: %s" % (why if got is None else "%d bytes recovered, %d sealed" % (len(got), sum(map(len, sealed)))),
+                     "the peer opens the whole stream to the requests in sealing order",
+                     "concurrent requests on the HAP-framed control channel are not recoverable by the peer")
+        elif b"/late" not in got:
+            ctx.fail("http-hap-concurrent:late-request-missing", {"sizes": sizes, "cancel": ci, "after": ca}, "request not on the wire", "the later request is sealed and written", "request after a cancelled one never reached the peer")
+
+
 def run(ctx):
     rng = ctx.rng
     batches = []
@@ -1037,3 +1226,5 @@ def run(ctx):
     oracle_mrp(ctx, rng.fork("oracle-mrp"))
     oracle_mrp_send(ctx, rng.fork("oracle-mrp-send"))
     oracle_audio(ctx, rng.fork("oracle-audio"))
+    oracle_audio_retransmit(ctx, rng.fork("oracle-audio-retransmit"))
+    oracle_http_hap_concurrent(ctx, rng.fork("oracle-http-hap-concurrent"))
